@@ -23,7 +23,7 @@ BOUNDS = {
              "heuristic = ANY consistent function (symbolic h(v)), max_cost / max_iter symbolic; bellman_ford / floyd_warshall / "
              "dijkstra_edges: every arc set on 3 nodes (incl. self loops: 2^9) is too many, so: all 64 loop-free arc sets on 3 nodes + "
              "12 named topologies on 3-4 nodes with self loops / duplicate arcs + (floyd_warshall) every labelling of a 3-arc path through 4 nodes with and without shortcut, weights unbounded Reals of any sign; astar_grid: every "
-             "3x3 and 2x3 layout over {free, blocked, terrain}, 4- and 8-neighbour, every start/goal pair reduced by fixing start=(0,0) "
+             "3x3 and 2x3 layout over {free, blocked, terrain}, 4- and 8-neighbour, every admissible built-in heuristic, obstacle value as int / set / other value, every start/goal pair reduced by fixing start=(0,0) "
              "and all goals, terrain cost symbolic >= 1",
     "thorough": "quick with astar on the complete digraph and the 12-arc dirty variant + 5-node sparse skeletons (named + VERIF_SEED-sampled, <=8 potential arcs) for dijkstra/astar/bfs/dfs; all arc "
                 "sets with <=5 arcs on 4 nodes for bellman_ford/floyd_warshall; astar_grid 3x4 (4-neighbour) and all heuristics",
